@@ -17,7 +17,7 @@
    table entries ([loop]) and column *names* ([hloop]); the stack discipline is proved about them. *)
 From Coq Require Import List Arith Bool ZArith.
 Import ListNotations.
-From RV Require Import Base.CRing Gen.RootCover Model.TreeTopo.
+From RV Require Import Base.CRing Gen.RootCover Gen.UniqueRows Model.TreeTopo.
 
 (* ------------------------------------------------------------------ column layout *)
 Section Layout.
@@ -285,6 +285,38 @@ Arguments mpo_table {R} t.
 Arguments mpo_coeff {R} bs s.
 
 
+
+(* ------------------------------------------------------------------ the unique-rows step *)
+(* What `np.unique(table_row, axis=0, return_inverse=True)` returns: the distinct rows in lexicographic
+   order and, for every row, its position among them.  The decomposition works on these positions
+   only; it is correct because a position determines the row (Proofs: row_index_injective).  The
+   column part is numbered by first occurrence (dict keyed by the row's bytes).                     *)
+Fixpoint key_ltb (a b : key) : bool :=
+  match a, b with
+  | [], [] => false
+  | [], _ :: _ => true
+  | _ :: _, [] => false
+  | x :: a', y :: b' => if Nat.ltb x y then true else if Nat.ltb y x then false else key_ltb a' b'
+  end.
+Fixpoint insert_key (k : key) (l : list key) : list key :=
+  match l with
+  | [] => [k]
+  | h :: t => if keqb k h then l else if key_ltb k h then k :: l else h :: insert_key k t
+  end.
+Definition term_rows (keys : list key) : list key := fold_right insert_key [] keys.
+Fixpoint index_of (k : key) (l : list key) : nat :=
+  match l with [] => O | h :: t => if keqb k h then O else S (index_of k t) end.
+Definition row_inverse (keys : list key) : list nat := map (fun k => index_of k (term_rows keys)) keys.
+Definition term_cols (keys : list key) : list key :=
+  fold_left (fun acc k => if memb k acc then acc else acc ++ [k]) keys [].
+Definition col_inverse (keys : list key) : list nat := map (fun k => index_of k (term_cols keys)) keys.
+(* the specification a row-index method stands for; only the call found in the source has one *)
+Definition row_index_spec (m : row_index_method) : option (list key -> list key * list nat) :=
+  match m with
+  | NpUniqueRows O true => Some (fun keys => (term_rows keys, row_inverse keys))
+  | _ => None
+  end.
+
 (* ------------------------------------------------------------------ the cover at the root *)
 (* At the root every row has an empty column part: one unique column, n >= 1 unique rows, every row
    adjacent to the column.  What _decompose_graph / bipartite_vertex_cover return there, in terms of
@@ -495,6 +527,12 @@ Definition run_header (tr : tree) : list Z :=
   b2z (hlogs_eqb (fst r) (expected 0 tr [])) :: flat_map enc_hlog (fst r) ++ enc_cols (snd r).
 Definition run_qn (qs : nat) (pqn : list qvec) (tr : tree) (firsts : list (list key)) : list Z :=
   enc_qns (qn_loop qs pqn (pmk tr) firsts []).
+(* the unique-rows step at every node of a run: term_row as np.unique must return it, and the inverse *)
+Definition run_unique (tr : tree) (t : table ZRing) (ws : list wit) : list Z :=
+  flat_map (fun nt =>
+     let keys := map (fun x => rkey ZRing (rowwidth (fst (fst nt)) (snd (fst nt))) x) (snd nt) in
+     Zn (length (term_rows keys)) :: flat_map enc_key (term_rows keys))
+   (combine (pmk tr) (loop_tables (pmk tr) t ws)).
 (* layout of a run with factorisation witnesses (coefficients are not compared here) *)
 Definition run_stables (tr : tree) (t : table ZRing) (sws : list (swit ZRing)) : list Z :=
   flat_map enc_table (sloop_tables (pmk tr) t sws) ++ enc_table (snd (sconstruct tr t sws)).
